@@ -26,3 +26,10 @@ package strategy
 //@   ensures empty_deletes: len(newVal) == 0 ==> ghost_nput == old(ghost_nput) && ghost_ndel == old(ghost_ndel) + 1
 //@   ensures nowrite_if_equal: len(newVal) > 0 && seqEq(newVal, oldVal) ==> ghost_nput == old(ghost_nput) && ghost_ndel == old(ghost_ndel) && ghost_dirty == old(ghost_dirty)
 //@   ensures put_otherwise: len(newVal) > 0 && !seqEq(newVal, oldVal) ==> ghost_nput == old(ghost_nput) + 1 && ghost_ndel == old(ghost_ndel)
+
+// Ghost-level contract of the point-update strategy: it only writes through
+// setNewVal (content-level contract: C19).
+//@ func Update
+//@   trusted
+//@   modifies ghost_dirty, ghost_nput, ghost_ndel
+//@   ensures dirty_only_set: ghost_dirty == old(ghost_dirty) || ghost_dirty == 1
